@@ -273,6 +273,12 @@ type repoManager struct {
 	// Mutex for concurrent use of all maps and ids below.
 	idMutex sync.RWMutex
 
+	// newIDsMu and cachesMu make taking a snapshot of the id counters (putNewIDs) or of the
+	// id maps (putCaches) and writing it to the metadata store one atomic step, so that of two
+	// concurrent callers the one with the newer snapshot also writes last.
+	newIDsMu sync.Mutex
+	cachesMu sync.Mutex
+
 	// Map local RepoID to root UUID
 	repoToUUID map[dvid.RepoID]dvid.UUID
 
@@ -458,6 +464,9 @@ func (m *repoManager) putNewIDs() error {
 		dvid.Infof("Server in read-only mode: will not write metadata new version and instance IDs.\n")
 		return nil
 	}
+	m.newIDsMu.Lock()
+	defer m.newIDsMu.Unlock()
+
 	var ctx storage.MetadataContext
 	value := append(m.repoID.Bytes(), m.versionID.Bytes()...)
 	value = append(value, m.instanceID.Bytes()...)
@@ -469,6 +478,9 @@ func (m *repoManager) putCaches() error {
 		dvid.Infof("Server in read-only mode: will not write metadata caches.\n")
 		return nil
 	}
+	m.cachesMu.Lock()
+	defer m.cachesMu.Unlock()
+
 	m.idMutex.RLock()
 	if err := m.putData(repoToUUIDKey, m.repoToUUID); err != nil {
 		m.idMutex.RUnlock()
